@@ -78,6 +78,18 @@ CHECKS = {
             "compared with 50-digit evaluations of the emitted trees.",
             "Trusted: TLC, expr_eval/mpmath; tolerance 1e-10*scale (measured 1.7e-15*scale).",
             "DESIGN.md section 5 C14"),
+    "C01": (MC, "TLA+ catalogue of rule definitions (OneD.tla); TLC proves rational exactness and the coefficient-domain Chebyshev "
+                "identities that fix the series truncation indices; spec-emitted definition trees and orthonormal-family obligations "
+                "replayed into all 26 constructors; TLC audit of recorded observables",
+            "TLC decides exactness of the rational rules (n <= 25) and, in the Chebyshev coefficient domain, Q_n[T_m] = 2/(1-m^2) for "
+            "Clenshaw-Curtis / Fejer-1 / Fejer-2 / sine-rectangle / Gauss-Chebyshev rules with the specification's summation index sets "
+            "(n <= 128), tightness of the last series term, orthogonality of the test families, well-formedness of the catalogue.  Every "
+            "emitted case (26 classes, n = 2..100, 127, 128, 255, 256 in the thorough tier, parameter lattices) is built with the real "
+            "constructor and compared element-wise with the evaluated definitions (weights of substitution and Trefethen rules derived by the "
+            "symbolic derivative) and discharged against exactness obligations on orthonormalised Legendre / Chebyshev / Laguerre families "
+            "(absolute tolerance 1e-9; sound code <= 9e-14, FejerSecond >= 3.9e-3).  Sizes, order and domain are audited by TLC.",
+            "Trusted: TLC, expr_eval/mpmath, the discrete cosine-sum lemma (cross-checked numerically), the functional form of the strip map.",
+            "DESIGN.md section 5 C01, Appendix G"),
 }
 
 NOT_YET = {}
